@@ -284,6 +284,11 @@ def run(env: Env) -> Outcome:
         # profile name, go back to the default by URL (refused while it has no row; must never keep the other environment's pick)
         {"ops": [["env-del", d], ["create-token", "p1", "sk-aaaaaa1111zzzz"], ["env-add", B, False, None], ["create-token", "p2", "sk-aaaaaa1111zzzz"],
                  ["env-switch", d], ["select-any"], ["env-switch", B], ["env-del", B], ["env-switch", d], ["probe", False, None], ["env-switch", d]]},
+        # a stored profile name that resolves to nothing in the current environment, a same-named profile in the default one,
+        # then the current environment is deleted: nothing may be active afterwards
+        {"ops": [["create-oidc", "p1", "u1", "a@x.io", "t0"], ["env-add", B, False, None], ["select", "a@x.io"], ["env-del", B], ["select-any"],
+                 ["env-add", B, True, None], ["create-oidc", "p2", "u2", "b@x.io", "t1"], ["select", "a@x.io"], ["env-switch", d], ["env-switch", B],
+                 ["select", "a@x.io"], ["env-del", B]]},
         {"ops": [["raw", m] for m in MALFORMED[:5]] + [["create-token", "p", None]] + [["raw", m] for m in MALFORMED[5:]] + [["select-any"]]},
     ]
     cases += corpus
